@@ -511,13 +511,14 @@ Section OpsSafe.
     - apply release_aff_loop_safe.
   Qed.
 
-  (* a client = its operations in sequence; it returns every (operation, result) pair *)
-  Fixpoint run_ops (host : N) (ops : list op) : prog (list (op * result)) :=
+  (* a client = its operations in sequence; it returns every (operation, result) pair (acc: the pairs of the
+     operations completed so far, most recent first) *)
+  Fixpoint run_ops_acc (host : N) (ops : list op) (acc : list (op * result)) : prog (list (op * result)) :=
     match ops with
-    | [] => Ret []
-    | o :: t => Cas.bind (compile_w cf fx fy host o) (fun r =>
-                Cas.bind (run_ops host t) (fun rest => Ret ((o, r) :: rest)))
+    | [] => Ret (rev acc)
+    | o :: t => Cas.bind (compile_w cf fx fy host o) (fun r => run_ops_acc host t ((o, r) :: acc))
     end.
+  Definition run_ops (host : N) (ops : list op) : prog (list (op * result)) := run_ops_acc host ops [].
 
   Definition Qclient (H : hist) (l : list (op * result)) : Prop :=
     Forall (fun p => op_post (fst p) H (snd p)) l.
@@ -537,12 +538,15 @@ Section OpsSafe.
     intros H H' l E F. eapply Forall_impl; [|apply F]. intros [o r]. apply op_post_mono; auto.
   Qed.
 
-  Lemma run_ops_safe host ops : forall H, safe H (run_ops host ops) Qclient.
+  Lemma run_ops_acc_safe host ops : forall acc H, Qclient H acc -> safe H (run_ops_acc host ops acc) Qclient.
   Proof.
-    induction ops as [|o t IH]; intros H; simpl; [constructor|].
-    sb compile_safe. sb IH. sret. constructor; [|exact P0].
-    simpl. eapply op_post_mono; eauto.
+    induction ops as [|o t IH]; intros acc H QA; simpl.
+    - unfold Qclient in *. apply Forall_rev. exact QA.
+    - sb compile_safe. apply IH. constructor; [exact P|].
+      eapply Qclient_mono; eauto.
   Qed.
+  Lemma run_ops_safe host ops : forall H, safe H (run_ops host ops) Qclient.
+  Proof. intros H. apply run_ops_acc_safe. constructor. Qed.
 
   (* ---------------------------------------------------------------- the system: any number of clients *)
   Definition sys0 (clients : list (N * list op)) : Cas.sys key value lopt (list (op * result)) :=
